@@ -172,6 +172,17 @@ def s6(ck, an):
     ck.check(ok, "LINT", "S6.transformer-end-default", subj, fa.f.loc, "transformer_end defaults to end and is otherwise the user's cut-off", f"transformer_end = {[ast.unparse(d.value) for d in te_defs]}",
              construct="transformer_end = transformer_end or end")
 
+    # a transformer object given by the caller (possibly fitted on the caller's own cut-off) is used as it is
+    given = [s_ for s_ in assigns_to_attr(fa, "transformer") if any(p[0] == "truthy" and p[2] and "isinstance(transformer" in p[1] and "TransformerMixin" in p[1] for p in fa.syntactic_guards(s_))]
+    ck.check(len(given) == 1 and isinstance(given[0], ast.Assign) and ast.unparse(given[0].value) == "transformer", "ARGFLOW", "S6.given-transformer-used-as-is", subj, fa.f.loc,
+             "a transformer instance passed by the caller is used as is (its fit, if any, is the caller's)", f"a given transformer is replaced by {[ast.unparse(g.value) for g in given if isinstance(g, ast.Assign)]}: its fit is discarded and redone up to transformer_end",
+             construct="self.transformer = transformer")
+    fits = [c for c in fa.calls_named("fit")]
+    for c in fits:
+        hs = enclosing_try_handlers(c, fa.f.node)
+        inh = any(isinstance(p_, ast.ExceptHandler) and p_.type is not None and "NotFittedError" in ast.unparse(p_.type) for p_ in parents(c))
+        ck.check(inh, "GUARD", "S6.fit-only-when-unfitted", subj, fa.loc(c), "the transformer is fitted only when check_is_fitted raised NotFittedError", "the transformer is (re)fitted even when it was already fitted", construct=stmt_text(c))
+
     def bounded_by(sub: ast.Subscript, name: str) -> bool:
         if not (isinstance(sub.value, ast.Attribute) and sub.value.attr == "loc"):
             return False
